@@ -133,8 +133,9 @@ def gen_queue(rnd):
 
 
 class _Src:
-    """a signal source: an arbitrary hashable object"""
+    """a signal source: an arbitrary hashable object (every other one is falsy: an empty container-like object)"""
     def __init__(self, k): self.k = k
+    def __len__(self): return 0 if self.k % 2 else 1
 
 
 def run_real_queue(c):
